@@ -70,6 +70,9 @@ fn gen(t: &mut Tape, _tier: Tier) -> Scenario {
         let ops = draw_history(t, n, &[], false);
         sc.set_l("ops", ops);
     }
+    if which != 2 && t.below(2) == 0 {
+        sc.set_l("src_script", crate::gen::draw_script(t));
+    }
     sc.note = format!(
         "lc={} lp={} pb={} dict={} produced={} need={} memlimit={}",
         b.props.lc, b.props.lp, b.props.pb, dict, produced, need, m
@@ -98,8 +101,20 @@ fn run(sc: &Scenario, opts: &OptSpec, measure: bool) -> (Verdict, Vec<u8>, Optio
         events = o.events.len() as u64;
         stream_verdict(&o)
     } else {
-        let mut r: &[u8] = input;
-        call_decoder(ep, &mut r, &mut sink, opts, &raw)
+        let (v, _) = run_with_reader(
+            ep,
+            input,
+            if sc.l("src_script").is_empty() { RK_SLICE } else { RK_SIM },
+            sc.l("src_script"),
+            Faults::none(),
+            0,
+            &mut sink,
+            opts,
+            &raw,
+            0,
+            0,
+        );
+        v
     };
     let peak = if measure { heap::end(base).0 } else { 0 };
     let s = st.borrow();
